@@ -1394,8 +1394,33 @@ pub(crate) fn m_style_elements() {
     }
 }
 
+/// Definitions, quotes and list items with very narrow content render with every decorator (the estimate contains
+/// the prefix the block is rendered with).
+pub(crate) fn m_prefix_estimate() {
+    let _which: u8 = kani::any();
+    let docs: [(&str, &str); 4] = [
+        ("<dl><dt>T</dt><dd>x</dd></dl>", "T\n  x\n"), ("<dl><dt>T</dt><dd></dd></dl>", "T\n"),
+        ("<dl><dd>x</dd><dd>yy</dd></dl>", "  x\n  yy\n"), ("<dl><dt>T</dt><dd><p>a</p><p>b</p></dd></dl>", "T\n  a\n  \n  b\n"),
+    ];
+    for (html, want) in docs.iter() {
+        for width in [4usize, 5, 8, 20] {
+            let t = crate::config::with_decorator(TrivialDecorator::new()).string_from_read(html.as_bytes(), width);
+            assert!(t.is_ok(), "{} at width {} with the trivial decorator: {:?}", html, width, t);
+            assert!(t.as_ref().unwrap() == want, "{} at width {}: {:?}", html, width, t);
+            let p = crate::config::plain().string_from_read(html.as_bytes(), width);
+            assert!(p.is_ok(), "{} at width {} with the plain decorator: {:?}", html, width, p);
+        }
+    }
+    for html in ["<blockquote>x</blockquote>", "<ul><li>x</li></ul>"] {
+        for width in [3usize, 4, 8] {
+            let t = crate::config::with_decorator(TrivialDecorator::new()).string_from_read(html.as_bytes(), width);
+            assert!(t.is_ok() && t.as_ref().unwrap().contains('x'), "{} at width {}: {:?}", html, width, t);
+        }
+    }
+}
+
 crate::verif_common::registry! {
-    m_style_elements, m_sup_children, m_frag_layout, m_selector_entry, m_block_colour_leak, m_footnote_list, m_strike_layout, m_element_dispatch, m_link_min_width, m_table_sections, m_table_caption, m_inline_tags, m_colspan_huge, m_frag_in_word, m_ol_prefix_width, m_dom_reuse, m_columns, m_prefix_blank_lines, m_shallow_empty, m_link_footnotes, m_strike_affix, m_frag_nested, m_dom_children, m_cell_unwind, m_routes_width, m_insert_child, m_ol_numbering, m_prefix_width, m_into_cells, m_table_col_width, m_table_alloc,
+    m_prefix_estimate, m_style_elements, m_sup_children, m_frag_layout, m_selector_entry, m_block_colour_leak, m_footnote_list, m_strike_layout, m_element_dispatch, m_link_min_width, m_table_sections, m_table_caption, m_inline_tags, m_colspan_huge, m_frag_in_word, m_ol_prefix_width, m_dom_reuse, m_columns, m_prefix_blank_lines, m_shallow_empty, m_link_footnotes, m_strike_affix, m_frag_nested, m_dom_children, m_cell_unwind, m_routes_width, m_insert_child, m_ol_numbering, m_prefix_width, m_into_cells, m_table_col_width, m_table_alloc,
     r1_cascade_pairs, r1_cascade_triples, r2_specificity_order, r2_specificity_add,
     r3_ol_prefix_total, r4_ol_prefix_is_max,
     r9_tree_map_reduce_order, r12_config_plumbing, r12_width_zero,
